@@ -882,6 +882,10 @@ func runCorr(a map[string]string) {
 		}
 		do("h2p " + hx.Hex(g.msg()))
 	}
+	// SHA-256 padding boundaries (the model hashes by itself now)
+	for _, n := range []int{0, 1, 54, 55, 56, 57, 63, 64, 65, 118, 119, 120, 127, 128, 129, 200} {
+		do("h2p " + hx.Hex(r.Bytes(n)))
+	}
 	do("g1mul " + hx.Hex(g.point()) + " " + bigR.String())
 	do("g1mul " + hx.Hex(g.point()) + " 0")
 	do("g1mul " + hx.Hex(make([]byte, 64)) + " 5")
